@@ -322,6 +322,24 @@ def main(ctx):
         ctx.notes.append("header-sizes: END-line offsets modulo 4096 covered: %d distinct; residues within 24 bytes of a "
                          "block boundary not covered: %r" % (len(cov), missing))
 
+    # -------------------------------------------------- (b3) large tables
+    # tables whose byte size sits on / next to the 1 MiB and 64 KiB marks, and a single row wider than 1 MiB: writers
+    # and readers that move the data in blocks (instead of one fwrite/fread) fail for particular row counts only
+    def one_large(case, rec):
+        descr, nrows, writer, reader = case
+        roundtrip(case, rec, [tuple(d) for d in descr], nrows, {"n": nrows}, [writer], [reader], True)
+
+    LARGE = []
+    for descr, rows in (
+            ([("a", "<i8"), ("x", "<f8")], (4095, 4096, 4097, 65535, 65536, 65537, 131072)),         # 16-byte rows
+            ([("a", "<i4"), ("x", ">f8")], (5461, 5462, 87381, 87382)),                             # 12-byte rows
+            ([("s", "S1024")], (63, 64, 65, 1023, 1024, 1025, 2048)),                               # 1 KiB rows
+            ([("s", "S1100000"), ("k", "<i2")], (1, 2))):                                           # a row wider than 1 MiB
+        for n in rows:
+            for (w, r) in (("sfile.write(fn,d)", "sfile.read"), ("SFile.write", "SFile[:]"), ("io.write", "Recfile(offset)")):
+                LARGE.append((descr, n, w, r))
+    ctx.lattice("large-tables", LARGE, one_large, bounds=dict(cases=len(LARGE)))
+
     # -------------------------------------------------------- (c) field names
     def one_name(case, rec):
         name, pos, other, nrows = case
